@@ -382,10 +382,12 @@ Qed.
 
 From Coq Require Import Permutation.
 (* ---- use -> symbol as groups; the viewport clip decision (extension round 4) -------------------------------- *)
-Definition clip_list_eq (a b : list (N * ts)) : Prop :=
+Definition clip_list_eq (a b : list (N * N * ts)) : Prop :=
   Forall2 (fun p q => fst p = fst q /\ ts_eq (snd p) (snd q)) a b.
-(* the same clips, each in the same coordinate system; the nesting order may differ (clips intersect) *)
-Definition clip_set_eq (a b : list (N * ts)) : Prop := exists b', Permutation b b' /\ clip_list_eq a b'.
+(* the same clips / masks / filters, each in the same coordinate system; the nesting order of the viewport clip and the
+   use's own effects may differ (clips intersect) *)
+Definition clip_set_eq (a b : list (N * N * ts)) : Prop := exists b', Permutation b b' /\ clip_list_eq a b'.
+Ltac tsr := unfold ts_eq, ts_concat, ts_identity, from_row; simpl; repeat split; ring.
 Ltac ts_atoms :=
   unfold ts_eq, ts_concat, ts_identity, from_row in *; simpl in *;
   repeat match goal with H : _ /\ _ |- _ => destruct H end;
@@ -398,56 +400,59 @@ Ltac ts_atoms :=
          | H : t_ty ?v == _ |- _ => is_var v; try rewrite H in *; clear H
          end;
   repeat split; try reflexivity; try lra.
-Ltac clip_lists := unfold clip_list_eq; repeat (constructor; simpl; try (split; [reflexivity|])); solve [ts_crunch | ts_atoms].
-Ltac clip_sets :=
-  unfold clip_set_eq;
-  first [ solve [eexists; split; [apply Permutation_refl|clip_lists]]
-        | solve [eexists; split; [apply perm_swap|clip_lists]] ].
-(* a use of a symbol converts like group(use transform + style) > clip > group(translate . viewBox transform, symbol style) >
-   content: same accumulated opacity and transform for every leaf, same clip above it, in the same coordinate system *)
-Theorem use_symbol_as_groups_guarded id orig_ts new_ts st sym_st clip k sh :
-  use_symbol_known_class clip st orig_ts = false ->
+Lemma eff_map_eq (l : list (N * N)) t1 t2 : ts_eq t1 t2 ->
+  clip_list_eq (map (fun e => (e, t1)) l) (map (fun e => (e, t2)) l).
+Proof. intro H. induction l; constructor; [split; [reflexivity|exact H]|assumption]. Qed.
+Lemma neutral_effects st : gstyle_neutral st = true -> effects st = [].
+Proof.
+  unfold gstyle_neutral, effects. intro H. repeat (apply andb_true_iff in H as [H ?]).
+  destruct (g_clip st); [discriminate|]. destruct (g_mask st); [discriminate|]. destruct (g_filter st); [reflexivity|discriminate].
+Qed.
+Lemma clip_list_app a b c d : clip_list_eq a b -> clip_list_eq c d -> clip_list_eq (a ++ c) (b ++ d).
+Proof. apply Forall2_app. Qed.
+
+(* a use of a symbol converts like group(use transform + style) > viewport clip > group(translate . viewBox transform, symbol
+   style) > content: same accumulated opacity and transform for every leaf, same clips / masks / filters above it, each in the
+   same coordinate system - for all inputs (full strength since 214a8de; former class use-symbol-style-in-parent-space) *)
+Theorem use_symbol_as_groups id orig_ts new_ts st sym_st clip k sh :
   match cleaves_of (convert_use_symbol id orig_ts new_ts st sym_st clip [TLeaf k sh]),
         cleaves_of (expand_use_symbol id orig_ts new_ts st sym_st clip [TLeaf k sh]) with
   | [(i, o, t, c)], [(j, p, u, d)] => i = j /\ o == p /\ ts_eq t u /\ clip_set_eq c d
   | _, _ => False
   end.
 Proof.
-  unfold convert_use_symbol, expand_use_symbol, symbol_children, group_or_splice, use_symbol_known_class.
+  unfold convert_use_symbol, expand_use_symbol, symbol_children, group_or_splice.
   replace (is_g_or_use E_Symbol) with false by reflexivity. rewrite !orb_false_r.
-  destruct clip as [c|]; simpl; intro Hk.
-  - clear Hk. destruct (gstyle_neutral sym_st) eqn:Hn; destruct (ts_is_identity new_ts) eqn:En; simpl;
-      try (pose proof (neutral_opacity sym_st Hn) as Ho); try (pose proof (ts_is_identity_eq new_ts En) as Hnew);
-      destruct (g_clip st) eqn:Ec; destruct (g_clip sym_st) eqn:Es; simpl;
-      try (unfold gstyle_neutral in Hn; rewrite Es in Hn; rewrite ?andb_false_r in Hn; simpl in Hn; discriminate Hn);
-      clear Hn En;
-      (split; [reflexivity|]); (split; [try rewrite Ho; ring|]); (split; [solve [ts_crunch]|]); clip_sets.
-  - revert Hk.
-    destruct (gstyle_neutral sym_st) eqn:Hn; destruct (ts_is_identity (ts_concat orig_ts new_ts)) eqn:En; simpl;
-      try (pose proof (neutral_opacity sym_st Hn) as Ho); try (pose proof (ts_is_identity_eq _ En) as Hnew);
-      destruct (g_clip st) eqn:Ec; destruct (g_clip sym_st) eqn:Es; simpl; intro Hk;
-      try (apply negb_false_iff in Hk; apply ts_is_identity_eq in Hk);
-      try (unfold gstyle_neutral in Hn; rewrite Es in Hn; rewrite ?andb_false_r in Hn; simpl in Hn; discriminate Hn);
-      clear Hn En;
-      (split; [reflexivity|]); (split; [try rewrite Ho; ring|]); (split; [solve [ts_crunch | ts_atoms]|]); clip_sets.
-Qed.
-
-(* the unguarded statement is false: use transform="translate(50 0)" clip-path=#1 of a symbol with overflow="visible" *)
-Theorem use_symbol_as_groups_refuted :
-  exists id orig_ts new_ts st sym_st clip k sh,
-    use_symbol_known_class clip st orig_ts = true /\
-    ~ match cleaves_of (convert_use_symbol id orig_ts new_ts st sym_st clip [TLeaf k sh]),
-            cleaves_of (expand_use_symbol id orig_ts new_ts st sym_st clip [TLeaf k sh]) with
-      | [(i, o, t, c)], [(j, p, u, d)] => i = j /\ o == p /\ ts_eq t u /\ clip_set_eq c d
-      | _, _ => False
-      end.
-Proof.
-  exists 1%N, (from_translate 50 0), ts_identity,
-    {| g_opacity := 1; g_blend := 0%N; g_isolate := false; g_clip := Some 1%N; g_mask := None; g_filter := [] |},
-    plain, None, 7%N, 0%N.
-  split; [reflexivity|]. cbn. intros [_ [_ [_ [b' [Hp Hl]]]]].
-  apply Permutation_length_1_inv in Hp. subst b'. inversion Hl as [|? ? ? ? [_ Ht] _]; subst.
-  unfold ts_eq in Ht. cbn in Ht. destruct Ht as [_ [_ [_ [_ [Ht _]]]]]. discriminate Ht.
+  destruct clip as [c|]; cbn [cleaves_of flat_map cleaves app g_opacity clip_only effects g_clip g_mask g_filter map];
+    rewrite ?app_nil_r.
+  - destruct (negb (gstyle_neutral sym_st) || negb (ts_is_identity new_ts)) eqn:R;
+      cbn [flat_map cleaves app]; rewrite ?app_nil_r.
+    + split; [reflexivity|]. split; [ring|]. split; [tsr|].
+      exists ([(0%N, c, ts_concat (ts_concat ts_identity orig_ts) ts_identity)]
+              ++ map (fun e => (e, ts_concat ts_identity orig_ts)) (effects st)
+              ++ map (fun e => (e, ts_concat (ts_concat (ts_concat ts_identity orig_ts) ts_identity) new_ts)) (effects sym_st)).
+      split.
+      * rewrite <- app_assoc. apply Permutation_app_swap_app.
+      * cbn [app]. constructor; [split; [reflexivity|tsr]|].
+        apply clip_list_app; apply eff_map_eq; tsr.
+    + apply orb_false_iff in R as [Rn Ri]. apply negb_false_iff in Rn, Ri.
+      rewrite (neutral_effects _ Rn). pose proof (neutral_opacity _ Rn) as Ho. pose proof (ts_is_identity_eq _ Ri) as Hnew.
+      cbn [map]. rewrite ?app_nil_r.
+      split; [reflexivity|]. split; [rewrite Ho; ring|]. split; [solve [ts_atoms]|].
+      exists ([(0%N, c, ts_concat (ts_concat ts_identity orig_ts) ts_identity)]
+              ++ map (fun e => (e, ts_concat ts_identity orig_ts)) (effects st)).
+      split.
+      * apply Permutation_app_comm.
+      * cbn [app]. constructor; [split; [reflexivity|tsr]|]. apply eff_map_eq; tsr.
+  - destruct (negb (gstyle_neutral sym_st) || negb (ts_is_identity new_ts)) eqn:R;
+      cbn [flat_map cleaves app]; rewrite ?app_nil_r.
+    + split; [reflexivity|]. split; [ring|]. split; [tsr|].
+      eexists; split; [apply Permutation_refl|]. apply clip_list_app; apply eff_map_eq; tsr.
+    + apply orb_false_iff in R as [Rn Ri]. apply negb_false_iff in Rn, Ri.
+      rewrite (neutral_effects _ Rn). pose proof (neutral_opacity _ Rn) as Ho. pose proof (ts_is_identity_eq _ Ri) as Hnew.
+      cbn [map]. rewrite ?app_nil_r.
+      split; [reflexivity|]. split; [rewrite Ho; ring|]. split; [solve [ts_atoms]|].
+      eexists; split; [apply Permutation_refl|]. apply eff_map_eq. tsr.
 Qed.
 
 From Coq Require Import String.
@@ -467,4 +472,84 @@ Proof.
   destruct (match ov with Some o => existsb (String.eqb o) ["visible"; "auto"]%string | None => false end); [reflexivity|].
   destruct is_svg, us0, us1, hw, hh; cbn [is_none andb orb negb sw sh];
     repeat match goal with |- context [Qltb 0 ?v] => destruct (Qltb 0 v) end; reflexivity.
+Qed.
+
+(* ---- order of the effects; inheritance through use chains (second pass) ------------------------------------------- *)
+(* without a viewport clip the effect chains agree in order as well *)
+Theorem use_symbol_effect_order id orig_ts new_ts st sym_st k sh :
+  match cleaves_of (convert_use_symbol id orig_ts new_ts st sym_st None [TLeaf k sh]),
+        cleaves_of (expand_use_symbol id orig_ts new_ts st sym_st None [TLeaf k sh]) with
+  | [(_, _, _, c)], [(_, _, _, d)] => clip_list_eq c d
+  | _, _ => False
+  end.
+Proof.
+  unfold convert_use_symbol, expand_use_symbol, symbol_children, group_or_splice.
+  replace (is_g_or_use E_Symbol) with false by reflexivity. rewrite !orb_false_r.
+  cbn [cleaves_of flat_map cleaves app]; rewrite ?app_nil_r.
+  destruct (negb (gstyle_neutral sym_st) || negb (ts_is_identity new_ts)) eqn:R; cbn [flat_map cleaves app]; rewrite ?app_nil_r.
+  - apply clip_list_app; apply eff_map_eq; tsr.
+  - apply orb_false_iff in R as [Rn Ri]. apply negb_false_iff in Rn. rewrite (neutral_effects _ Rn). cbn [map]. rewrite ?app_nil_r.
+    apply eff_map_eq. tsr.
+Qed.
+(* with a viewport clip, the conversion puts the viewport clip OUTSIDE the use's own effects, the expansion inside: harmless for
+   clip-path / mask / opacity (they commute with a clip), not for a filter - candidate defect use-symbol-filter-inside-viewport-clip *)
+Theorem use_symbol_filter_order_refuted :
+  exists id orig_ts new_ts st sym_st c k sh,
+    map fst (match cleaves_of (convert_use_symbol id orig_ts new_ts st sym_st (Some c) [TLeaf k sh]) with [(_, _, _, l)] => l | _ => [] end)
+      = [(0%N, c); (2%N, 3%N)] /\
+    map fst (match cleaves_of (expand_use_symbol id orig_ts new_ts st sym_st (Some c) [TLeaf k sh]) with [(_, _, _, l)] => l | _ => [] end)
+      = [(2%N, 3%N); (0%N, c)].
+Proof.
+  exists 1%N, ts_identity, ts_identity,
+    {| g_opacity := 1; g_blend := 0%N; g_isolate := false; g_clip := None; g_mask := None; g_filter := [3%N] |}, plain, 9%N, 7%N, 0%N.
+  split; reflexivity.
+Qed.
+
+Lemma resolved_expand : forall e inh, resolved inh (expand_uses e) = resolved inh e.
+Proof.
+  fix IH 1. intros [id own|own kids|own copy] inh; cbn [expand_uses resolved].
+  - reflexivity.
+  - induction kids as [|a kids IHk]; cbn [map flat_map]; [reflexivity|]. rewrite IH, IHk. reflexivity.
+  - cbn [flat_map]. rewrite IH, app_nil_r. reflexivity.
+Qed.
+(* a use chain of ANY length hands the target the innermost value set along the chain (else what the outermost use inherits);
+   what the target's original parent had plays no role *)
+Lemma resolved_chain : forall owns target inh, resolved inh (use_chain owns target) = resolved (chain_value owns inh) target.
+Proof. induction owns as [|o r IH]; intros; cbn [use_chain chain_value resolved]; [reflexivity|apply IH]. Qed.
+
+From Coq Require Import Ascii.
+(* ---- systemLanguage: exact match, or the part before the first '-' (second pass) ------------------------------------ *)
+Lemma lang_matches_iff user lang :
+  lang_matches user lang = true <->
+  In lang user \/ exists p, prefix_before_dash lang = Some p /\ In p user.
+Proof.
+  unfold lang_matches. rewrite orb_true_iff, existsb_exists. split.
+  - intros [[x [Hx E]]|H].
+    + left. apply String.eqb_eq in E. subst x. exact Hx.
+    + right. destruct (prefix_before_dash lang) as [p|]; [|discriminate]. apply existsb_exists in H as [x [Hx E]].
+      apply String.eqb_eq in E. subst x. exists p. split; [reflexivity|exact Hx].
+  - intros [H|[p [Hp H]]].
+    + left. exists lang. split; [exact H|apply String.eqb_refl].
+    + right. rewrite Hp. apply existsb_exists. exists p. split; [exact H|apply String.eqb_refl].
+Qed.
+(* the prefix is what stands before the FIRST dash: lang = p ++ "-" ++ rest with no dash in p *)
+Lemma prefix_before_dash_spec : forall lang p,
+  prefix_before_dash lang = Some p <->
+  (exists rest, lang = (p ++ String "-"%char rest)%string) /\ prefix_before_dash p = None.
+Proof.
+  induction lang as [|c r IH]; intros p; cbn [prefix_before_dash].
+  - split; [discriminate|]. intros [[rest E] _]. destruct p; discriminate E.
+  - destruct (Ascii.eqb c "-"%char) eqn:Ec.
+    + apply Ascii.eqb_eq in Ec. subst c. split.
+      * intro H. injection H as <-. split; [exists r; reflexivity|reflexivity].
+      * intros [[rest E] Hn]. destruct p as [|d p']; [reflexivity|]. cbn in E. injection E as <- _.
+        cbn in Hn. discriminate Hn.
+    + split.
+      * destruct (prefix_before_dash r) as [q|] eqn:Er; [|discriminate]. intro H. injection H as <-.
+        destruct (proj1 (IH q) eq_refl) as [[rest E] Hn]. split; [exists rest; cbn; rewrite E; reflexivity|].
+        cbn. rewrite Ec, Hn. reflexivity.
+      * intros [[rest E] Hn]. destruct p as [|d p']; [cbn in E; injection E as -> _; rewrite Ascii.eqb_refl in Ec; discriminate|].
+        cbn in E. injection E as <- E. cbn in Hn. rewrite Ec in Hn.
+        destruct (prefix_before_dash p') eqn:Ep; [discriminate|].
+        assert (prefix_before_dash r = Some p') as -> by (apply IH; split; [exists rest; exact E|exact Ep]). reflexivity.
 Qed.
